@@ -121,7 +121,10 @@ CLAIMS = {
         text="Proof (a) on the abstract object model (bytes objects as length + char array) that __Pyx_PyBytes_SingleTailmatch - the helper "
              "behind bytes.startswith / bytes.endswith on typed receivers, taken from the generated module - returns for a bytes affix and "
              "ALL Py_ssize_t start / end exactly what CPython's _Py_bytes_tailmatch returns (ADJUST_INDICES clamping, the endswith "
-             "window, empty affixes, start beyond the end) and that its memcmp stays inside both objects; (b) for a catalogue of builtin "
+             "window, empty affixes, start beyond the end) and that its memcmp stays inside both objects; that __Pyx_PyList_Pop and "
+             "__Pyx__PyList_PopIndex (l.pop(), l.pop(i); mutable size and element array as ghost state) either return the right element "
+             "with the size decremented and the elements above moved down by one (memmove inside the element array), or call CPython's "
+             "own list.pop on the UNCHANGED list with the original index; (b) for a catalogue of builtin "
              "calls on C integers (abs, min / max with 2-4 operands of mixed C types and constants, nested min/max, bool()) the C function "
              "the working-tree compiler emits returns, for ALL argument values, the value Python's semantics give the same source text "
              "(reference evaluator dv/pyref.py over the catalogue's own ast, validated against CPython every run). Kernel: these helpers "
